@@ -2247,8 +2247,10 @@ class ExpressionEvaluator(Parser):
             unsigned = isinstance(lhs, np.uint64)
             if isinstance(rhs, np.uint64):
                 b %= 1 << 64
+            # An out-of-range count is undefined; like division by zero it
+            # may appear in an operand that C would not evaluate, so yield 0.
             if b < 0 or b >= 64:
-                raise ValueError("Invalid shift count.")
+                return wrap(0, unsigned)
             if op == "<<":
                 return wrap(a << b, unsigned)
             return wrap(a >> b, unsigned)
